@@ -412,3 +412,92 @@ Proof.
       rewrite andb_false_r. reflexivity.
   - unfold img_get. destruct (N.leb_spec 1 p); [lia|]. reflexivity.
 Qed.
+
+(** ---- the incremental sync after a growth succeeds ------------------------------------- *)
+
+Lemma sortedN_tail x l : sortedN (x :: l) -> sortedN l.
+Proof. inversion 1; subst; [constructor|assumption]. Qed.
+
+Lemma sortedN_head_le x l : sortedN (x :: l) -> forall p, In p l -> x <= p.
+Proof.
+  revert x. induction l as [|y tl IH]; intros x Hs p Hin; [destruct Hin|].
+  inversion Hs; subst. destruct Hin as [<-|Hin]; [assumption|].
+  specialize (IH y H3 p Hin). lia.
+Qed.
+
+Lemma enc_run_incr_ok lock commit : forall l prev,
+  sortedN l -> NoDup l ->
+  (forall p, In p l -> p <= commit /\ p <> 0 /\ p <> lock) ->
+  (forall p, In p l -> prev < p) ->
+  enc_run false lock commit prev l = None.
+Proof.
+  induction l as [|x tl IH]; intros prev Hs Hn Hb Hp; [reflexivity|].
+  cbn [enc_run]. destruct (Hb x (or_introl eq_refl)) as [B1 [B2 B3]].
+  rewrite enc_page_incr_ok; [|assumption|assumption|assumption|apply Hp; left; reflexivity].
+  inversion Hn; subst. apply IH; [apply (sortedN_tail x); assumption|assumption| |].
+  - intros p Hin. apply Hb. right. assumption.
+  - intros p Hin. pose proof (sortedN_head_le x tl Hs p Hin).
+    assert (x <> p) by (intros ->; contradiction). lia.
+Qed.
+
+Lemma insertN_NoDup x l : NoDup l -> ~ In x l -> NoDup (insertN x l).
+Proof.
+  induction l as [|y tl IH]; intros Hn Hx; simpl; [constructor; [intros []|constructor]|].
+  destruct (x <=? y); [constructor; assumption|].
+  inversion Hn; subst. constructor.
+  - rewrite insertN_In. intros [->|Hc]; [apply Hx; left; reflexivity|contradiction].
+  - apply IH; [assumption|]. intros Hc. apply Hx. right. assumption.
+Qed.
+
+Lemma sortN_NoDup l : NoDup l -> NoDup (sortN l).
+Proof.
+  induction 1 as [|x l Hx Hn IH]; simpl; [constructor|].
+  apply insertN_NoDup; [assumption|]. rewrite sortN_In. assumption.
+Qed.
+
+Lemma fill_iter_NoDup lock keys prev k :
+  NoDup (snd (N.iter k (fill_step lock keys) (prev + 1, []))).
+Proof.
+  induction k using N.peano_ind; [constructor|].
+  rewrite N.iter_succ.
+  pose proof (fill_iter_spec lock keys prev k) as S. cbv zeta in S.
+  destruct (N.iter k (fill_step lock keys) (prev + 1, [])) as [pg acc]. simpl in *.
+  destruct S as [S1 S2]. subst pg. unfold fill_step. simpl.
+  destruct (prev + 1 + k =? lock); [assumption|].
+  destruct (memN (prev + 1 + k) keys); [assumption|].
+  simpl. constructor; [|assumption]. rewrite S2. lia.
+Qed.
+
+Lemma growth_fill_NoDup lock prev commit keys : NoDup (growth_fill lock prev commit keys).
+Proof.
+  unfold growth_fill. destruct (prev <? commit); [|constructor].
+  rewrite rev_append_rev, app_nil_r. apply NoDup_rev. apply fill_iter_NoDup.
+Qed.
+
+Lemma NoDup_app_disj {A} (a b : list A) :
+  NoDup a -> NoDup b -> (forall x, In x a -> ~ In x b) -> NoDup (a ++ b).
+Proof.
+  induction 1 as [|x a Hx Ha IH]; intros Hb Hd; simpl; [assumption|].
+  constructor.
+  - rewrite in_app_iff. intros [Hc|Hc]; [contradiction|]. apply (Hd x); [left; reflexivity|assumption].
+  - apply IH; [assumption|]. intros y Hy. apply Hd. right. assumption.
+Qed.
+
+(** for every page map SQLite can produce (distinct pages within 1..commit, never
+    the lock page) the encoder of an incremental file accepts what
+    writeLTXFromWAL feeds it — whatever the previous commit was *)
+Lemma wal_encoder_accepts lock prev commit keys :
+  NoDup keys -> (forall k, In k keys -> 1 <= k <= commit /\ k <> lock) ->
+  enc_run false lock commit 0 (wal_pgnos lock prev commit keys) = None.
+Proof.
+  intros Hn Hk. apply enc_run_incr_ok.
+  - apply wal_pgnos_sorted.
+  - unfold wal_pgnos. apply sortN_NoDup. apply NoDup_app_disj; [assumption|apply growth_fill_NoDup|].
+    intros x Hx Hc. apply growth_fill_In in Hc. tauto.
+  - intros p Hp. apply wal_pgnos_In in Hp. destruct Hp as [Hp|Hp].
+    + destruct (Hk p Hp). lia.
+    + lia.
+  - intros p Hp. apply wal_pgnos_In in Hp. destruct Hp as [Hp|Hp].
+    + destruct (Hk p Hp). lia.
+    + lia.
+Qed.
